@@ -60,6 +60,17 @@ pub struct Case {
     /// a *subdomain* of the URL's host (domain hosts only) is on the no-proxy list: the URL's own host is not covered by it
     #[serde(default)]
     pub no_proxy_child: bool,
+    /// the selected proxy refuses the connection: the request fails, nothing else is contacted instead
+    #[serde(default)]
+    pub proxy_refuses: bool,
+    /// instead of the generated URL: two real listeners on 127.0.0.1 addressed as `localhost:A` and `localhost:B` (system
+    /// resolver), one request each from this thread; each must reach its own port
+    #[serde(default)]
+    pub real_localhost_pair: bool,
+}
+
+thread_local! {
+    static REFUSE_PROXY: std::cell::Cell<bool> = const { std::cell::Cell::new(false) };
 }
 
 pub const METHODS: &[&str] = &["GET", "GET", "OPTIONS", "HEAD", "POST", "DELETE", "TRACE", "PUT"];
@@ -117,6 +128,11 @@ pub fn install_router(
     let net2 = net.clone();
     let guard = install_factory(move |dial| {
         let idx = net2.lock().unwrap().len();
+        if dial.proxy.is_some() && REFUSE_PROXY.with(|c| c.get()) {
+            let (_t, log) = Scripted::new(vec![]);
+            net2.lock().unwrap().push((dial.clone(), PeerLog::Plain(log)));
+            return Err(std::io::Error::new(std::io::ErrorKind::ConnectionRefused, "harness: the proxy refuses connections"));
+        }
         let response = respond(dial, idx);
         let tunnel = dial.proxy.is_some() && dial.url.starts_with("https:");
         // the client offers a bracketed IPv6 literal as SNI, which a conforming TLS server refuses: tunnels to IPv6-literal origins
@@ -167,6 +183,68 @@ pub fn exchanges(net: &Arc<Mutex<Vec<(Dial, PeerLog)>>>) -> Vec<Exchange> {
             }
         })
         .collect()
+}
+
+/// Two plain listeners on 127.0.0.1; the URLs name them as `localhost:<port>` so that the system resolver is used. Each request
+/// must be answered by the listener its URL names (nothing remembered from the first lookup may redirect the second).
+fn real_localhost_pair() -> Outcome {
+    use std::io::{Read, Write};
+    let stop = Arc::new(std::sync::atomic::AtomicBool::new(false));
+    let mk = |tag: &'static str| -> std::io::Result<(u16, std::thread::JoinHandle<()>)> {
+        let stop = stop.clone();
+        let l = std::net::TcpListener::bind("127.0.0.1:0")?;
+        let port = l.local_addr()?.port();
+        l.set_nonblocking(false)?;
+        let h = std::thread::spawn(move || {
+            // serve at most two connections, give up after 3 s of silence
+            let _ = l.set_nonblocking(true);
+            let t0 = std::time::Instant::now();
+            let mut served = 0;
+            while served < 2 && t0.elapsed() < std::time::Duration::from_secs(6) && !stop.load(std::sync::atomic::Ordering::Relaxed) {
+                match l.accept() {
+                    Ok((mut s, _)) => {
+                        let _ = s.set_nonblocking(false);
+                        let _ = s.set_read_timeout(Some(std::time::Duration::from_secs(2)));
+                        let mut buf = [0u8; 2048];
+                        let mut got = vec![];
+                        while !got.windows(4).any(|w| w == b"\r\n\r\n") {
+                            match s.read(&mut buf) {
+                                Ok(0) | Err(_) => break,
+                                Ok(n) => got.extend_from_slice(&buf[..n]),
+                            }
+                        }
+                        let _ = s.write_all(format!("HTTP/1.1 200 OK\r\nContent-Length: {}\r\n\r\n{tag}", tag.len()).as_bytes());
+                        served += 1;
+                    }
+                    Err(_) => std::thread::sleep(std::time::Duration::from_millis(5)),
+                }
+            }
+        });
+        Ok((port, h))
+    };
+    let (a, b) = match (mk("server-a"), mk("server-b")) {
+        (Ok(a), Ok(b)) => (a, b),
+        _ => {
+            eprintln!("C08: cannot bind loopback listeners");
+            std::process::exit(2);
+        }
+    };
+    // the real resolver and real sockets: no transport factory, no resolver override on this thread
+    let get = |port: u16| attohttpc::get(format!("http://localhost:{port}/x")).proxy_settings(attohttpc::ProxySettings::builder().build()).connect_timeout(std::time::Duration::from_secs(2)).read_timeout(std::time::Duration::from_secs(2)).send().and_then(|r| r.text_utf8());
+    let r1 = get(a.0);
+    let r2 = get(b.0);
+    let out = match (&r1, &r2) {
+        (Ok(x), Ok(y)) if x == "server-a" && y == "server-b" => Outcome::Pass,
+        (Err(e), _) if format!("{e:?}").contains("lookup") || format!("{e:?}").contains("resolve") => {
+            // no usable `localhost` entry on this machine: nothing to conclude
+            Outcome::Pass
+        }
+        _ => Outcome::fail("C08:wrong-peer:real-sockets", format!("http://localhost:{}/x answered {:?}; then http://localhost:{}/x answered {:?} (expected server-a, server-b)", a.0, r1.as_ref().map_err(|e| e.to_string()), b.0, r2.as_ref().map_err(|e| e.to_string()))),
+    };
+    stop.store(true, std::sync::atomic::Ordering::Relaxed);
+    let _ = a.1.join();
+    let _ = b.1.join();
+    out
 }
 
 pub fn ok_response() -> Vec<u8> {
@@ -359,7 +437,7 @@ non-trivial = a proxy is involved or the URL has >= 2 of {explicit port, IPv6, f
                                                         0 => None,
                                                         k => Some(ProxySpec { https: *k == 2, host: ph.clone(), port: *pp, creds: pc.clone() }),
                                                     };
-                                                    all.push(Case { url, http_proxy: proxy.clone(), https_proxy: proxy, redirect_to: None, caller_host: false, send_twice: false, method: (all.len() % METHODS.len()) as u8, no_proxy_self: false, no_proxy_child: all.len() % 3 == 0 });
+                                                    all.push(Case { url, http_proxy: proxy.clone(), https_proxy: proxy, redirect_to: None, caller_host: false, send_twice: false, method: (all.len() % METHODS.len()) as u8, no_proxy_self: false, no_proxy_child: all.len() % 3 == 0, proxy_refuses: false, real_localhost_pair: false });
                                                 }
                                             }
                                         }
@@ -381,9 +459,9 @@ non-trivial = a proxy is involved or the URL has >= 2 of {explicit port, IPv6, f
             prop_oneof![1 => Just(None), 2 => proxy_spec().prop_map(Some)],
             prop_oneof![3 => Just(None), 1 => urlgen::url_spec(true, false).prop_map(Some)],
             prop::bool::weighted(0.2),
-            (prop::bool::weighted(0.25), 0u8..METHODS.len() as u8, prop::bool::weighted(0.15), prop::bool::weighted(0.2)),
+            (prop::bool::weighted(0.25), 0u8..METHODS.len() as u8, prop::bool::weighted(0.15), prop::bool::weighted(0.2), prop::bool::weighted(0.1), prop::bool::weighted(0.01)),
         )
-            .prop_map(|(mut url, http_proxy, https_proxy, redirect_to, caller_host, (send_twice, method, no_proxy_self, no_proxy_child))| {
+            .prop_map(|(mut url, http_proxy, https_proxy, redirect_to, caller_host, (send_twice, method, no_proxy_self, no_proxy_child, proxy_refuses, real_localhost_pair))| {
                 let redirect_to = redirect_to.map(|mut u| {
                     u.fragment = None;
                     if u.https && https_proxy.is_some() {
@@ -395,14 +473,28 @@ non-trivial = a proxy is involved or the URL has >= 2 of {explicit port, IPv6, f
                 });
                 // a tunnel to an IPv6-literal origin is checked up to the proxy's refusal (see install_router): one send, no redirect
                 let v6_tunnel = url.https && https_proxy.is_some() && matches!(url.host, HostSpec::V6(_));
-                let (redirect_to, send_twice) = if v6_tunnel { (None, false) } else { (redirect_to, send_twice) };
+                // a refusing proxy is checked on a single hop
+                let (redirect_to, send_twice) = if v6_tunnel || proxy_refuses { (None, false) } else { (redirect_to, send_twice) };
                 let _ = &mut url;
-                Case { url, http_proxy, https_proxy, redirect_to, caller_host, send_twice, method, no_proxy_self, no_proxy_child }
+                Case { url, http_proxy, https_proxy, redirect_to, caller_host, send_twice, method, no_proxy_self, no_proxy_child, proxy_refuses, real_localhost_pair }
             })
             .boxed()
     }
 
     fn check(case: &Case, ctx: &mut Ctx) -> Outcome {
+        if case.real_localhost_pair {
+            ctx.label("real-sockets:localhost-on-two-ports");
+            ctx.nontrivial = true;
+            return real_localhost_pair();
+        }
+        struct RefuseGuard;
+        impl Drop for RefuseGuard {
+            fn drop(&mut self) {
+                REFUSE_PROXY.with(|c| c.set(false));
+            }
+        }
+        let _refuse_guard = RefuseGuard;
+        REFUSE_PROXY.with(|c| c.set(case.proxy_refuses));
         let loc = case.redirect_to.as_ref().map(|u| u.render());
         let hops_per_send = 1 + usize::from(case.redirect_to.is_some());
         let (_guard, net) = install_router(
@@ -455,6 +547,17 @@ non-trivial = a proxy is involved or the URL has >= 2 of {explicit port, IPv6, f
             (true, true) => "route:tunnel",
         };
         ctx.label(route);
+        if case.proxy_refuses && proxy.is_some() {
+            ctx.label("selected-proxy-refuses-the-connection");
+            if let Ok(r) = &res {
+                return Outcome::fail("C08:refused-proxy-bypassed", format!("the proxy {} refused the connection, yet a response arrived ({}); connections: {:?}", proxy.unwrap().render(), r.status(), exs.iter().map(|e| format!("{}:{}", e.dial.host, e.dial.port)).collect::<Vec<_>>()));
+            }
+            let p = proxy.unwrap().as_url_spec();
+            if exs.len() != 1 || exs[0].dial.host.to_ascii_lowercase() != p.host_text() || exs[0].dial.port != p.effective_port() {
+                return Outcome::fail("C08:refused-proxy-bypassed", format!("after the proxy {} refused, these peers were contacted: {:?}", proxy.unwrap().render(), exs.iter().map(|e| format!("{}:{}", e.dial.host, e.dial.port)).collect::<Vec<_>>()));
+            }
+            return Outcome::Pass;
+        }
         if case.url.https && proxy.is_some() && matches!(case.url.host, HostSpec::V6(_)) {
             ctx.label("tunnel-to-ipv6-origin(refused by the proxy)");
             ctx.nontrivial = true;
